@@ -191,23 +191,29 @@ func (l *Lexer) nextInsideToken() token.Token {
 		tok.Literal = ""
 		tok.Type = token.EOF
 	default:
+		// an identifier or a number is read up to the character that follows
+		// it: when that is a newline the line counter has already moved on,
+		// so take the line before reading
+		line := l.curLine
 		if isLetter(l.ch) {
 			tok.Literal = l.readIdentifier()
 			tok.Type = token.LookupIdent(tok.Literal)
-			tok.LineNumber = l.curLine
+			tok.LineNumber = line
 			return tok
 		} else if isDigit(l.ch) {
 			tok.Literal = l.readNumber()
 			tokSplit := strings.Split(tok.Literal, ".")
 			switch {
 			case len(tokSplit) > 2:
-				return l.newIllegalTokenLiteral(token.ILLEGAL, tok.Literal)
+				tok = l.newIllegalTokenLiteral(token.ILLEGAL, tok.Literal)
+				tok.LineNumber = line
+				return tok
 			case len(tokSplit) == 2:
 				tok.Type = "FLOAT"
 			default:
 				tok.Type = "INT"
 			}
-			tok.LineNumber = l.curLine
+			tok.LineNumber = line
 			return tok
 		} else {
 			tok = l.newToken(token.ILLEGAL)
